@@ -32,6 +32,12 @@ EDITS = [
  ("txns-key", "transport/progress/utils.go", "transactions.Set(msg.TimeBasedKey, transaction)", "transactions.Set(msg.Transaction, transaction)", "C04"),
  ("tracker-written-to-seen", "transport/progress/progress_tracker.go", "err := p.ledger.updateWritten(written)", "err := p.ledger.updateWritten(written); _ = written", "C01"),
  ("agg-expiry-ge", "stats/aggregator/aggregator.go", "return timeNow > bucketTime+a.aggregateTimeNano+reportGraceNano", "return timeNow >= bucketTime+a.aggregateTimeNano+reportGraceNano", "C19"),
+ ("time-12h-layout", "utils/time.go", '"20060102150405"', '"20060102030405"', "C12"),
+ ("stdout-json-as-format", "transport/transporters/stdout/transporter/transporter.go", 'fmt.Printf("%d: %s\\n", t.id, string(msg.Json))', 'fmt.Printf(fmt.Sprint(t.id) + ": " + string(msg.Json) + "\\n")', "C04"),
+ ("kafka-acks-zero", "transport/transporters/kafka/client_config.yaml.go", "\tconfig.Producer.Return.Successes = true", "\tconfig.Producer.RequiredAcks = sarama.NoResponse\n\tconfig.Producer.Return.Successes = true", "C15"),
+ ("kafka-factory-swap", "transport/transporters/kafka/factory.go", "producerConfig(tls, ca, privateKey, publicKey, kafkaFlushBytes, kafkaFlushFrequency, maxMessageBytes, kafkaRetryMax)", "producerConfig(tls, ca, privateKey, publicKey, maxMessageBytes, kafkaFlushFrequency, kafkaFlushBytes, kafkaRetryMax)", "C15"),
+ ("main-slot-swap", "main/main.go", "batcherConfig[config.VAR_NAME_BATCH_FLUSH_MAX_AGE] = batchFlushMaxAge\n\tbatcherConfig[config.VAR_NAME_BATCH_FLUSH_UPDATE_AGE] = batchFlushUpdateAge", "batcherConfig[config.VAR_NAME_BATCH_FLUSH_MAX_AGE] = batchFlushUpdateAge\n\tbatcherConfig[config.VAR_NAME_BATCH_FLUSH_UPDATE_AGE] = batchFlushMaxAge", "C16"),
+ ("message-parse-order", "replication/message.go", "err := pr.ParsePrelude()", "err := pr.ParseColumns()", "C09"),
  ("agg-key-order", "stats/aggregator/aggregator.go", "\tsb.WriteString(s.Component)\n\tsb.WriteString(s.StatName)", "\tsb.WriteString(s.StatName)\n\tsb.WriteString(s.Component)", "C19"),
 ]
 only = sys.argv[1] if len(sys.argv) > 1 else ""
